@@ -30,6 +30,8 @@ class CallLog:
 
     def value(self, x):
         x = np.asarray(x, dtype=np.float64)
+        if self.kind.startswith("neg-"):
+            return -CallLog(self.d, self.kind[4:]).value(x)
         if self.kind == "terrace":
             # plateaus: zero numerical gradient almost everywhere, many exact ties
             return float(np.sum(np.floor(2 * x) ** 2))
@@ -98,6 +100,7 @@ class RecLSC:
         self.P = None
         self.symbolic = False
         self.inner = None  # a real (shipped) local stop condition to pass through, or None for a symbolic verdict
+        self.shared = None
         self.calls = {}  # deme id -> list of verdicts
 
     def __call__(self, deme):
@@ -106,8 +109,12 @@ class RecLSC:
         k = len(self.calls.setdefault(deme.id, []))
         if self.inner is not None:
             b = bool(self.inner(deme))
+        elif self.shared is not None and (deme.level, deme.id, k) in self.shared:
+            b = self.shared[(deme.level, deme.id, k)]  # twin run: replay the verdicts of the first run
         else:
             b = bool(self.P.bool(f"lsc.{deme.id}#{k}"))
+            if self.shared is not None:
+                self.shared[(deme.level, deme.id, k)] = b
         self.calls[deme.id].append(b)
         return b
 
